@@ -16,6 +16,24 @@ func init() {
 			Expect: "lay.guti-offsets / nasConvert.GutiToNasWithError", Why: "TMSI written one octet early (over the AMF pointer octet)"},
 		Mutant{Name: "c12-error-swallowed", Prop: "C12", File: "nasConvert/AmfId.go", Old: "\t\treturn 0, 0, 0, fmt.Errorf(\"amfId decode failed: %w\", err)", New: "\t\treturn 0, 0, 0, nil",
 			Expect: "err.propagate.convert / nasConvert.AmfIdToNasWithError", Why: "invalid hex text accepted silently"},
+		// text rules (props_ident_text.go)
+		Mutant{Name: "c12-pei-even-kept", Prop: "C12", File: "nasConvert/MobileIdentity5GS.go", Old: "\tif oddIndication == 0 { // even digits", New: "\tif oddIndication == 0 && len(buf) > 8 { // even digits",
+			Expect: "text.pei / nasConvert.PeiToStringWithError", Why: "the filler of an even digit count survives in identities of up to 8 octets"},
+		Mutant{Name: "c12-pei-nibble-order", Prop: "C12", File: "nasType/NAS_MobileIdentity5GS.go", Old: "\t\ttmpBytes[len(tmpBytes)-1] += digitP\n\t\ttmpBytes = append(tmpBytes, digitP1)", New: "\t\ttmpBytes[len(tmpBytes)-1] += digitP1 >> 4\n\t\ttmpBytes = append(tmpBytes, digitP<<4)",
+			Expect: "text.pei / nasType.(*MobileIdentity5GS).GetIME", Why: "digits p and p+1 of every octet swapped in the IMEI text"},
+		Mutant{Name: "c12-suci-routing-trim", Prop: "C12", File: "nasConvert/MobileIdentity5GS.go", Old: "\t\troutingInd = routingInd[0:idx]", New: "\t\troutingInd = routingInd[0 : idx&^1]",
+			Expect: "text.suci / nasConvert.SuciToStringWithError", Why: "routing indicators of 1 or 3 digits lose their last digit"},
+		Mutant{Name: "c12-suci-msin-start", Prop: "C12", File: "nasType/NAS_MobileIdentity5GS.go", Old: "for i := 8; i < len(a.Buffer); i++ {", New: "for i := 9; i < len(a.Buffer); i++ {",
+			Expect: "text.suci / nasType.(*MobileIdentity5GS).GetSUCI", Why: "first two MSIN digits dropped"},
+		Mutant{Name: "c12-suci-keyid-hex", Prop: "C12", File: "nasConvert/MobileIdentity5GS.go", Old: "homeNetworkPublicKeyIdentifier = fmt.Sprintf(\"%d\", buf[7])", New: "homeNetworkPublicKeyIdentifier = fmt.Sprintf(\"%x\", buf[7])",
+			Expect: "text.suci / nasConvert.SuciToStringWithError", Why: "key identifier rendered in hexadecimal (differs from 10 on)"},
+		Mutant{Name: "c12-stmsi-offset", Prop: "C12", File: "nasType/NAS_MobileIdentity5GS.go", Old: "tmsi5G := a.Buffer[3:7]", New: "tmsi5G := a.Buffer[2:6]",
+			Expect: "text.tmsi / nasType.(*MobileIdentity5GS).Get5G", Why: "5G-TMSI of a 5G-S-TMSI read one octet early"},
+		Mutant{Name: "c12-amfset-decimal-bits", Prop: "C12", File: "nasType/NAS_MobileIdentity5GS.go", Old: "uint16(a.Buffer[amfSetStartPoint])<<2 + uint16((a.Buffer[amfSetStartPoint+1])&GetBitMask(8, 2))>>6", New: "uint16(a.Buffer[amfSetStartPoint])<<2 + uint16((a.Buffer[amfSetStartPoint+1])&GetBitMask(8, 2))>>7",
+			Expect: "text.amf-decimal / nasType.(*MobileIdentity5GS).GetAmfSetID", Why: "lowest AMF set ID bit lost"},
+		Mutant{Name: "c12-guti-text-tmsi-short", Prop: "C12", File: "nasConvert/MobileIdentity5GS.go", Old: "tmsi5G := hex.EncodeToString(buf[7:])", New: "tmsi5G := hex.EncodeToString(buf[7:10]) + \"00\"",
+			Expect: "guti", Why: "last 5G-TMSI octet not rendered"},
+		Mutant{Name: "c12-keep-suci-trimright", Prop: "C12", File: "nasType/NAS_MobileIdentity5GS.go", Old: "schemeOutput = schemeOutput[:len(schemeOutput)-1]", New: "schemeOutput = strings.TrimRight(schemeOutput, \"f\")", Keep: true, Why: "MSIN digits are decimal: only the trailing filler is trimmed"},
 		Mutant{Name: "c12-keep-plmn-or-plus", Prop: "C12", File: "nasConvert/PlmnId.go", Old: "uint8((mccDigit2 << 4) | mccDigit1),", New: "uint8(mccDigit2<<4 + mccDigit1),", Keep: true, Why: "disjoint add equals or"},
 	)
 }
